@@ -108,6 +108,19 @@ fn derive_struct_tostring(
         return Err(generic_not_supported("struct", &struct_def.name, attr_ptr));
     }
 
+    if struct_def
+        .fields
+        .iter()
+        .any(|(_, ty)| unsupported_field_type(ty))
+    {
+        return Err(field_type_not_supported(
+            TO_STRING_TRAIT,
+            "struct",
+            &struct_def.name,
+            attr_ptr,
+        ));
+    }
+
     let method = ast::Fn {
         attrs: Vec::new(),
         name: AstIdent::new(TO_STRING_FN),
@@ -138,6 +151,19 @@ fn derive_enum_tostring(
         return Err(generic_not_supported("enum", &enum_def.name, attr_ptr));
     }
 
+    if enum_def
+        .variants
+        .iter()
+        .any(|(_, tys)| tys.iter().any(unsupported_field_type))
+    {
+        return Err(field_type_not_supported(
+            TO_STRING_TRAIT,
+            "enum",
+            &enum_def.name,
+            attr_ptr,
+        ));
+    }
+
     let method = ast::Fn {
         attrs: Vec::new(),
         name: AstIdent::new(TO_STRING_FN),
@@ -163,6 +189,19 @@ fn derive_struct_tojson(
 ) -> Result<ImplBlock, Diagnostic> {
     if !struct_def.generics.is_empty() {
         return Err(generic_not_supported_json(
+            "struct",
+            &struct_def.name,
+            attr_ptr,
+        ));
+    }
+
+    if struct_def
+        .fields
+        .iter()
+        .any(|(_, ty)| unsupported_field_type(ty))
+    {
+        return Err(field_type_not_supported(
+            TO_JSON_TRAIT,
             "struct",
             &struct_def.name,
             attr_ptr,
@@ -197,6 +236,19 @@ fn derive_enum_tojson(
 ) -> Result<ImplBlock, Diagnostic> {
     if !enum_def.generics.is_empty() {
         return Err(generic_not_supported_json("enum", &enum_def.name, attr_ptr));
+    }
+
+    if enum_def
+        .variants
+        .iter()
+        .any(|(_, tys)| tys.iter().any(unsupported_field_type))
+    {
+        return Err(field_type_not_supported(
+            TO_JSON_TRAIT,
+            "enum",
+            &enum_def.name,
+            attr_ptr,
+        ));
     }
 
     let method = ast::Fn {
@@ -642,6 +694,32 @@ fn generic_not_supported_json(
         format!(
             "`#[derive(ToJson)]` is not supported for generic {} `{}`",
             kind, name.0
+        ),
+    )
+    .with_range(attr_ptr.text_range())
+}
+
+// Tuples, arrays and function values have no `to_string` / `to_json`: a field of such a
+// type cannot be rendered by the generated method.
+fn unsupported_field_type(ty: &ast::TypeExpr) -> bool {
+    matches!(
+        ty,
+        ast::TypeExpr::TTuple { .. } | ast::TypeExpr::TArray { .. } | ast::TypeExpr::TFunc { .. }
+    )
+}
+
+fn field_type_not_supported(
+    trait_name: &str,
+    kind: &str,
+    name: &AstIdent,
+    attr_ptr: &MySyntaxNodePtr,
+) -> Diagnostic {
+    Diagnostic::new(
+        Stage::other(DERIVE_STAGE),
+        Severity::Error,
+        format!(
+            "`#[derive({})]` is not supported for {} `{}`: it has a field of a tuple, array or function type",
+            trait_name, kind, name.0
         ),
     )
     .with_range(attr_ptr.text_range())
